@@ -78,6 +78,7 @@ def translate(ctx):
             f.write(src)
     ctx.extra["gen_changed_vs_baseline"] = old is not None and old != src
     ctx.extra["table_rows"] = len(nt.rows())
+    ctx.extra["table_sources"] = dict(nt.LAST_OVERLAY)
 
 
 # =====================================================================================================
@@ -800,9 +801,11 @@ def _fkey(form):
 
 
 def _probe_violation(ctx, what_key, what, src, detail):
-    """a one-operator / one-call probe is itself a concrete input: the table extracted from the source says it is accepted and
-    lowers to given ops, but the real check()/lowering crashes, rejects it, or emits something else — the operator no longer
-    yields Python's result on operands where it is defined"""
+    """Decision rule.  A disagreement between the regenerated TABLE and the REAL lowering of a probe only means that the
+    translator/table no longer describes the code: `ctx.broke` (the value grid then searches for a failing input through the op the
+    real compiler actually emitted).  A concrete VIOLATION is reported only when (a) the real lowered probe, evaluated, differs
+    from Python under the statement's guard (value grid), or (b) — here — the real check()/lowering crashes on or rejects an
+    operator form / dunder the statement covers: the probe program is then the failing input."""
     ctx.violation("probe:" + what_key, what, {"probe_source": src, "detail": detail})
 
 
@@ -849,17 +852,11 @@ def tie(ctx):
             got_body = sorted(nm for nm, _s in callee[0]) if callee else None
             if got_body != want_body:
                 ctx.broke(f"T-obj: body row {ty}.{name}: compiled FuncDefn has ops {got_body}, table/body AST predicts {want_body}")
-                _probe_violation(ctx, f"row {ty}.{name} {' '.join(params)}",
-                                 f"`{call}` ({', '.join(params)}): compiled body has ops {got_body}, the source's body predicts {want_body}",
-                                 src, {"got": got_body, "want": want_body})
                 row_mismatch += 1
         else:
             want = T.call_ops(row, params)[0]
             if [nm for nm, _s in got] != want:
                 ctx.broke(f"T-obj: row {ty}.{name}: real compiler emits {[nm for nm, _s in got]}, table says {want}")
-                _probe_violation(ctx, f"row {ty}.{name} {' '.join(params)}",
-                                 f"`{call}` ({', '.join(params)}) lowers to {[nm for nm, _s in got]} but its table row says {want}",
-                                 src, {"got": [nm for nm, _s in got], "want": want})
                 row_mismatch += 1
                 continue
             # operand wiring: a reflected dunder must feed (other, self)
@@ -868,9 +865,6 @@ def tie(ctx):
                 exp_w = ["p1", "p0"] if kind == "reversed" else ["p0", "p1"]
                 if "?" not in wiring and wiring != exp_w:
                     ctx.broke(f"T-obj: row {ty}.{name}: operand wiring {wiring}, expected {exp_w}")
-                    _probe_violation(ctx, f"row {ty}.{name} {' '.join(params)}",
-                                     f"`{call}` ({', '.join(params)}): operands reach {got[-1][0]} as {wiring}, expected {exp_w}",
-                                     src, {"wiring": wiring, "want": exp_w})
                     row_mismatch += 1
     ctx.extra["row_probe_mismatches"] = row_mismatch
 
@@ -912,19 +906,15 @@ def tie(ctx):
         if st != "ok":
             ctx.broke(f"T-obj: operator form `{fk}` is not accepted/compiled by the real compiler: {st} {funcs}")
             ctx.count({"form": fk}, nontrivial=True, kind=f"form:{st}")
-            if exp is not None:
-                _probe_violation(ctx, f"form {fk}", f"`{fk}`: the dunder table accepts these operand types (ops {exp[0]}) but the real "
-                                 f"check()/lowering fails: {st} {funcs}", src, {"status": st, "info": str(funcs), "table_ops": exp[0]})
+            _probe_violation(ctx, f"form {fk}", f"`{fk}` is an operator form the statement covers (accepted and lowered by the unchanged tree) but the "
+                             f"real check()/lowering fails: {st} {funcs}", src, {"status": st, "info": str(funcs), "table_ops": exp[0] if exp else None})
             continue
         fops = funcs.get("f", [])
         ctx.count({"form": fk, "ops": [nm for nm, _s in fops]}, nontrivial=True, kind="form:ok")
         if exp is None:
-            _probe_violation(ctx, f"form {fk}", f"`{fk}` is accepted by the real compiler (ops {[nm for nm, _s in fops]}) but the dunder "
-                             f"table has no applicable row", src, {"got": [nm for nm, _s in fops]})
+            ctx.broke(f"T-obj: form `{fk}` is accepted by the real compiler (ops {[nm for nm, _s in fops]}) but the table dispatch has no applicable row")
         if exp is not None and [nm for nm, _s in fops] != exp[0]:
             ctx.broke(f"T-obj: form `{fk}`: real compiler emits {[nm for nm, _s in fops]}, table dispatch predicts {exp[0]}")
-            _probe_violation(ctx, f"form {fk}", f"`{fk}` lowers to {[nm for nm, _s in fops]} but the table dispatch predicts {exp[0]}",
-                             src, {"got": [nm for nm, _s in fops], "want": exp[0]})
         # interpreter oracle: the whole lowered probe (every FuncDefn it calls, control flow included) is interpreted
         ih = interp_handle(src)
         if ih is not None:
